@@ -246,6 +246,11 @@ def t2t_decode(ans):
     unknowns = rd.list(rd.str); diags = rd.diags()
     return {'outcome': 'ok', 'toks': toks, 'txt': txt, 'pos': pos, 'parts': parts, 'unknowns': unknowns, 'diags': diags}
 
+def norm_diags(ds):
+    """(line, col, message up to the first quote): quoted parts go through Python's repr()"""
+    import re
+    return [(d[0], d[1], re.split(r'[\'"]', d[2])[0]) for d in ds]
+
 def cleveref_used(case):
     s = case['src'] + ((case.get('opts') or {}).get('defs') or '') + ''.join((case.get('files') or {}).values())
     o = case.get('opts') or {}
@@ -282,7 +287,7 @@ def t2t(ctx, cases, results, proj=('outcome', 'toks', 'text', 'diags', 'unknowns
                     ctx.disagree('tex2txt multi-language parts differ', impl=r.get('parts'), model=m['parts'], **info); continue
             elif (m['txt'], m['pos']) != (r.get('txt'), r.get('pos')):
                 ctx.disagree('tex2txt text/positions differ', impl=[r.get('txt'), r.get('pos')], model=[m['txt'], m['pos']], **info); continue
-        if 'diags' in proj and m['diags'] != impl.parse_stderr(r['stderr']):
+        if 'diags' in proj and norm_diags(m['diags']) != norm_diags(impl.parse_stderr(r['stderr'])):
             ctx.disagree('tex2txt diagnostics differ', impl=impl.parse_stderr(r['stderr']), model=m['diags'], **info); continue
         if 'unknowns' in proj and r.get('unknowns') is not None and m['unknowns'] != r['unknowns']:
             ctx.disagree('tex2txt unknowns differ', impl=r['unknowns'], model=m['unknowns'], **info)
